@@ -49,6 +49,28 @@ pub fn scalar_set(r: &BigUint, quick: bool) -> Vec<(String, BigUint, usize)> {
             push(format!("limbs{n}:{mask:05b}"), k, n);
         }
     }
+    // recoding / carry-chain patterns: adjacent limb pairs over the classic worst cases of k -> 3k
+    // and of windowed recodings (0x5555.., 0xAAAA.., their successors, 2^63 +- 1, all-ones)
+    {
+        let pat: [u64; 9] = [0, 1, 0x5555_5555_5555_5555, 0x5555_5555_5555_5556, 0xAAAA_AAAA_AAAA_AAAA, 0xAAAA_AAAA_AAAA_AAAB, 0x7FFF_FFFF_FFFF_FFFF, 0x8000_0000_0000_0000, u64::MAX];
+        for pos in 0..3usize {
+            for (ai, a) in pat.iter().enumerate() {
+                for (bi, b) in pat.iter().enumerate() {
+                    if quick && !(ai >= 2 || bi >= 2) {
+                        continue;
+                    }
+                    for bg in [0u64, 0x0123_4567_89AB_CDEF] {
+                        let mut l = [bg; 4];
+                        l[3] = bg & 0x00FF_FFFF_FFFF_FFFF; // keep below r
+                        l[pos] = *a;
+                        l[pos + 1] = if pos + 1 == 3 { *b & 0x00FF_FFFF_FFFF_FFFF } else { *b };
+                        let k = refmodel::fld::from_limbs(&l);
+                        push(format!("carry:{pos}:{ai}:{bi}:{}", (bg != 0) as u8), k, 4);
+                    }
+                }
+            }
+        }
+    }
     // short and over-long presentations of small values
     push("5 (1 limb)".into(), BigUint::from(5u32), 1);
     push("5 (8 limbs)".into(), BigUint::from(5u32), 8);
@@ -117,9 +139,14 @@ impl GM {
 fn msm(ctx: &Arc<Ctx>, gm: &GM) {
     use ark_ec::VariableBaseMSM;
     let r = &gm.gm.dc.r;
-    let sc: Vec<(String, BigUint)> = vec![("0".into(), BigUint::zero()), ("1".into(), BigUint::one()), ("2".into(), BigUint::from(2u32)), ("r-1".into(), r - 1u32), ("(r+1)/2".into(), (r + 1u32) >> 1), ("2^250".into(), BigUint::one() << 250)];
+    let mut sc: Vec<(String, BigUint)> = vec![("0".into(), BigUint::zero()), ("1".into(), BigUint::one()), ("2".into(), BigUint::from(2u32)), ("r-1".into(), r - 1u32), ("(r+1)/2".into(), (r + 1u32) >> 1), ("2^250".into(), BigUint::one() << 250)];
+    let base_scalars = sc.len();
+    // recoding / carry patterns (used in vectors of length 1 and 2 only)
+    for (n, k, _) in scalar_set(r, true).into_iter().filter(|(n, k, _)| n.starts_with("carry:") && k < r) {
+        sc.push((n, k));
+    }
     let pts: Vec<usize> = vec![0, 1, 2, 4, 5, 6]; // pool: identity, T2, G, G+T2, 2G(Z=3), H
-    let n = sc.len() * pts.len();
+    let n = base_scalars * pts.len();
     let mut vecs: Vec<Vec<usize>> = vec![vec![]];
     for a in 0..n {
         vecs.push(vec![a]);
@@ -130,6 +157,14 @@ fn msm(ctx: &Arc<Ctx>, gm: &GM) {
                     vecs.push(vec![a, b, c]);
                 }
             }
+        }
+    }
+    // pattern scalars: alone on G and H, and paired with (2, G)
+    for si in base_scalars..sc.len() {
+        for pi in [2usize, 5] {
+            let t = si * pts.len() + pi;
+            vecs.push(vec![t]);
+            vecs.push(vec![2 * pts.len() + 2, t]);
         }
     }
     let frs: Vec<Fr> = sc.iter().map(|(_, k)| fr(k)).collect();
